@@ -3,8 +3,12 @@
 package dtls
 
 import (
-	pb "github.com/refraction-networking/conjure/proto"
-	"google.golang.org/protobuf/proto"
+	"context"
+	"fmt"
+	"net"
+	"time"
+
+	"github.com/pion/stun"
 )
 
 // Read-only access for the C01 harness (exists only in the scratch copy made by /verif/check).
@@ -12,11 +16,58 @@ import (
 // VerifC01Consts returns portRangeMin, portRangeMax, defaultPort of the DTLS transport.
 func VerifC01Consts() (int64, int64, uint16) { return portRangeMin, portRangeMax, defaultPort }
 
-// VerifC01PrepareParams does the parameter part of (*ClientTransport).Prepare — the session
-// parameters become a copy of the configured parameters — without the STUN exchange.
-func VerifC01PrepareParams(t *ClientTransport) {
-	if t.Parameters == nil {
-		t.Parameters = &pb.DTLSTransportParams{}
+// VerifC01ClientPSK returns the pre-shared key the client transport will hand to the DTLS handshake
+// (set by PrepareKeys).
+func VerifC01ClientPSK(t *ClientTransport) []byte { return t.psk }
+
+// VerifC01StunDialer returns a dialer for the real (*ClientTransport).Prepare: every "connection" is
+// an in-process pipe whose far end answers one STUN binding request with a fixed public address
+// (192.0.2.33:4444 for udp4, [2001:db8::33]:4444 for udp6).  No socket, no clock.
+func VerifC01StunDialer() func(ctx context.Context, network, laddr, raddr string) (net.Conn, error) {
+	return func(ctx context.Context, network, laddr, raddr string) (net.Conn, error) {
+		local := &net.UDPAddr{IP: net.IPv4(127, 0, 0, 1), Port: 40004}
+		pub := &stun.XORMappedAddress{IP: net.IPv4(192, 0, 2, 33).To4(), Port: 4444}
+		switch network {
+		case "udp4":
+		case "udp6":
+			local = &net.UDPAddr{IP: net.ParseIP("::1"), Port: 40006}
+			pub = &stun.XORMappedAddress{IP: net.ParseIP("2001:db8::33"), Port: 4444}
+		default:
+			return nil, fmt.Errorf("verif stun dialer: unexpected network %q", network)
+		}
+		near, far := net.Pipe()
+		go func() {
+			defer far.Close()
+			buf := make([]byte, 1500)
+			for {
+				n, err := far.Read(buf)
+				if err != nil {
+					return
+				}
+				req := &stun.Message{Raw: append([]byte{}, buf[:n]...)}
+				if err := req.Decode(); err != nil {
+					continue
+				}
+				resp, err := stun.Build(stun.NewTransactionIDSetter(req.TransactionID), stun.BindingSuccess, pub, stun.Fingerprint)
+				if err != nil {
+					return
+				}
+				if _, err := far.Write(resp.Raw); err != nil {
+					return
+				}
+			}
+		}()
+		return &verifC01StunConn{Conn: near, local: local, remote: &net.UDPAddr{IP: net.IPv4(192, 0, 2, 1), Port: 19302}}, nil
 	}
-	t.sessionParams = proto.Clone(t.Parameters).(*pb.DTLSTransportParams)
 }
+
+type verifC01StunConn struct {
+	net.Conn
+	local, remote *net.UDPAddr
+}
+
+func (c *verifC01StunConn) LocalAddr() net.Addr              { return c.local }
+func (c *verifC01StunConn) RemoteAddr() net.Addr             { return c.remote }
+func (c *verifC01StunConn) SetDeadline(time.Time) error      { return nil }
+func (c *verifC01StunConn) SetReadDeadline(time.Time) error  { return nil }
+func (c *verifC01StunConn) SetWriteDeadline(time.Time) error { return nil }
